@@ -16,6 +16,6 @@ if [ -n "$DEMO" ]; then
 fi
 (cd "$WT" && PYTHONPATH=$WT/src timeout 900 /venv/bin/python -m pytest -q -p no:cacheprovider --timeout=900 --continue-on-collection-errors tests 2>&1 | tail -1)
 cd "$(dirname "$0")/.."
-VERIF_REPO=$WT VERIF_EVIDENCE_DIR=out/scratch_evidence timeout 1500 ./check "$PROP" > /tmp/_seed_check_$PROP.log 2>&1; RC=$?
-grep -E "^VIOLATION|^$PROP tier|^UNDECIDED" /tmp/_seed_check_$PROP.log | cut -c1-260 | head -8
+VERIF_REPO=$WT VERIF_EVIDENCE_DIR=out/scratch_evidence timeout 1500 ./check "$PROP" > /tmp/_seed_check_$(basename $WT).log 2>&1; RC=$?
+grep -E "^VIOLATION|^$PROP tier|^UNDECIDED" /tmp/_seed_check_$(basename $WT).log | cut -c1-260 | head -8
 echo "check exit: $RC"
